@@ -41,6 +41,13 @@ lazy_static! {
     static ref JITTER: Option<u64> = std::env::var("DELTA_VERIF_JITTER")
         .ok()
         .and_then(|s| s.parse().ok());
+    // Upper bound (microseconds) of a jitter sleep; the monitors vary it so that either thread
+    // can be the slower one.
+    static ref JITTER_MAX_US: u64 = std::env::var("DELTA_VERIF_JITTER_MAX_US")
+        .ok()
+        .and_then(|s| s.parse().ok())
+        .filter(|n| *n > 0)
+        .unwrap_or(3000);
     // Shadow of the calling-process cell, updated by `caller_stored` while the
     // cell's own lock is held, so it always equals the cell's value.
     static ref CALLER_SHADOW: Mutex<String> = Mutex::new("Pending".to_string());
@@ -78,7 +85,7 @@ fn jitter(name: &str) {
         match x % 4 {
             0 => {}
             1 => std::thread::yield_now(),
-            _ => std::thread::sleep(std::time::Duration::from_micros(x % 3000)),
+            _ => std::thread::sleep(std::time::Duration::from_micros(x % *JITTER_MAX_US)),
         }
     }
 }
